@@ -13,7 +13,7 @@ from tie import scalar_tables
 from tie.framework import g_bool, g_list, g_pair, g_str, g_Z, run_impl_parallel
 
 PROP = "C01"
-JUDGE = os.environ.get("VERIF_C01_JUDGE", "judge")     # "judge_fixed" once fixes/C01-skip-default-trims-dict-leaf.patch is applied
+JUDGE = os.environ.get("VERIF_C01_JUDGE", "judge_fixed")   # /repo d576475 (fixes/C01-skip-default-trims-dict-leaf.patch) landed
 IMPORTS = ("From JV Require Import Lib.Base Lib.Regex Model.TyVal Model.Scalar Model.C01Conf Model.C01Guard "
            "Gen.C01Tables Corr.C01Judge.")
 RULE = ("one case = (parser, accepted configuration, variant): parser = 1-5 leaves, some under nested groups (dotted keys, "
@@ -45,7 +45,7 @@ ASSUMPTIONS = [
     "Any-typed leaves hold JSON-like values whose strings the loader reads as themselves",
 ]
 EXHAUSTIVE = {"quick": False, "thorough": False}
-FINDING_CLASSES = {1: "save-skip-none-null-over-default", 2: "skip-default-trims-dict-leaf",
+FINDING_CLASSES = {1: "save-skip-none-null-over-default",   # class 2 (skip-default-trims-dict-leaf) repaired: /repo d576475
                    3: "skip-default-eq-conflates-types", 4: "json-nonfinite-float", 5: "unprintable-str",
                    6: "comments-reemit", 7: "enum-member-null", 8: "default-not-normalised"}
 
